@@ -344,6 +344,13 @@ pub fn c14(tier: Tier) -> PropSpec {
                     .boxed()
             },
             c14_check,
+        ),
+        Part::with_shrink(
+            "cli-export",
+            tier.pick(60, 800),
+            300,
+            crate::props::cli::cli_export_strategy,
+            crate::props::cli::cli_export_check,
         )],
     }
 }
